@@ -104,8 +104,8 @@ class ParserState:
 
                 if comment_rule:
                     self.checkpoint()
-                    matched = comment_rule.parse(self, children) or matched
-                    if matched:
+                    if comment_rule.parse(self, children):
+                        matched = True
                         some = True
                         pairs.extend(children)
                         self.ok()
